@@ -19,7 +19,7 @@ import traceback
 
 VERIF = os.path.dirname(os.path.dirname(os.path.abspath(__file__)))
 REPO = os.environ.get("VERIF_REPO", "/repo")
-EVIDENCE_DIR = os.path.join(VERIF, "evidence")
+EVIDENCE_DIR = os.environ.get("VERIF_EVIDENCE_DIR", os.path.join(VERIF, "evidence"))
 REPLAY_DIR = os.path.join(VERIF, "replays")
 KNOWN_FILE = os.path.join(VERIF, "known_findings.txt")
 GUARD = "GOOGLEAPIS_GAPIC_GENERATOR_PYTHON_VERIF"
@@ -211,6 +211,74 @@ class Check:
         if self.inconclusive:
             sys.exit(2)
         sys.exit(0)
+
+
+class Recorder:
+    """Stands in for a Check inside a worker process: records the calls, the parent replays them."""
+    _METHODS = ("ok", "violation", "fail_inconclusive", "encoded", "sample", "canary", "twin", "bound")
+
+    def __init__(self, jobs=16):
+        self.calls = []
+        self.stubs, self.assumptions, self.outside = [], [], []
+        self.jobs = jobs
+        self.programs = 0
+
+    def __getattr__(self, name):
+        if name in Recorder._METHODS:
+            return lambda *a, **k: self.calls.append((name, a, k))
+        raise AttributeError(name)
+
+    def only(self, _name):
+        return True
+
+
+def run_recorded(fn, *args):
+    """worker entry: fn(recorder, *args) -> recorded calls (exceptions become inconclusive records)"""
+    r = Recorder()
+    try:
+        fn(r, *args)
+    except Inconclusive as e:
+        r.calls.append(("fail_inconclusive", (str(e),), {}))
+    except Exception as e:  # noqa: BLE001
+        r.calls.append(("fail_inconclusive", (f"harness error {type(e).__name__}: {e}",), {}))
+    return r.calls
+
+
+def replay_calls(chk, calls):
+    for name, a, k in calls:
+        getattr(chk, name)(*a, **k)
+
+
+def parallel_parts(chk, parts):
+    """run [(fn, args...)] each in its own process, merge their records into chk in order"""
+    import multiprocessing as mp
+    with mp.Pool(min(len(parts), max(chk.jobs, 1))) as pool:
+        futs = [pool.apply_async(run_recorded, p) for p in parts]
+        for f in futs:
+            replay_calls(chk, f.get())
+
+
+def parallel_threads(chk, parts):
+    """run [callable(recorder)] concurrently in threads (each part spawns its own subprocesses); merge in order"""
+    import concurrent.futures as cf
+
+    def one(fn):
+        r = Recorder(chk.jobs)
+        try:
+            fn(r)
+        except Inconclusive as e:
+            r.calls.append(("fail_inconclusive", (str(e),), {}))
+        except Exception as e:  # noqa: BLE001
+            traceback.print_exc()
+            r.calls.append(("fail_inconclusive", (f"harness error {type(e).__name__}: {e}",), {}))
+        return r
+    with cf.ThreadPoolExecutor(max_workers=len(parts)) as ex:
+        for r in [f.result() for f in [ex.submit(one, p) for p in parts]]:
+            replay_calls(chk, r.calls)
+            chk.programs += r.programs
+            chk.stubs += r.stubs
+            chk.assumptions += r.assumptions
+            chk.outside += r.outside
 
 
 def run_check(pid, description, body, replay_fn=None, level="model_checking"):
